@@ -120,7 +120,7 @@ Definition check (fx : fixes) (c : case) : verdict :=
   {| v_corr := corr1 fx c (c_raw c) (o_a c) (o_auri c) && corr1 fx c (c_raw2 c) (o_b c) (o_buri c);
      v_prop := prop c;
      v_guards := guards [(1%Z, g_F1 c); (2%Z, g_F2 c && negb (fx2 fx)); (3%Z, g_F3 c && negb (fx3 fx));
-                         (4%Z, g_F4 c); (5%Z, g_F5 c)] |}.
+                         (4%Z, g_F4 c); (5%Z, g_F5 c && negb (fx5 fx))] |}.
 
 (** * requests through the Envoy entry point *)
 
@@ -149,7 +149,7 @@ Definition check_envoy (fx : fixes) (c : case) : verdict :=
   {| v_corr := corr1_envoy fx c (c_raw c) (o_a c) (o_auri c) && corr1_envoy fx c (c_raw2 c) (o_b c) (o_buri c);
      v_prop := prop_envoy c;
      v_guards := guards [(1%Z, g_F1 c); (2%Z, g_F2 c && negb (fx2 fx)); (3%Z, g_F3_envoy c && negb (fx3 fx));
-                         (4%Z, g_F4 c); (5%Z, g_F5 c)] |}.
+                         (4%Z, g_F4 c); (5%Z, g_F5 c && negb (fx5 fx))] |}.
 
 (** * units: rule_impl.go unescape *)
 
@@ -165,4 +165,4 @@ Definition ucheck (fx : fixes) (c : ucase) : verdict :=
                (String.eqb (uo_off c) (decode_keep_slash v) &&
                 String.eqb (uo_nodecode c) (decode_keep_slash v) &&
                 String.eqb (uo_on c) (unescape_or_empty v));
-     v_guards := guards [(2%Z, contains "%2f" v && negb (fx2 fx)); (5%Z, guard_F5 v)] |}.
+     v_guards := guards [(2%Z, contains "%2f" v && negb (fx2 fx)); (5%Z, guard_F5 v && negb (fx5 fx))] |}.
